@@ -60,6 +60,10 @@ static void vf_interfere(void) {}
 #define COMPLETED_ONCE(completed, attempts, k) ((completed) == 1 && (attempts) == (k))   /* exactly one downstream completion, in k calls */
 /* a throw that left the function: nothing completed, nothing destroyed, ONE call made; the source gets the exception back */
 #define THREW_BACK(completed, attempts, propagated, dead) ((completed) == 0 && (attempts) == 1 && (propagated) && !(dead))
+/* a throwing downstream set_value in a completion function: EITHER the exception goes back into the source, OR it is reported here with
+ * exactly one set_error(current_exception) -- and nothing else in both cases */
+#define THROW_NOT_LOST (THREW_BACK(G.completed, G.attempts, G.propagated, G.dead) \
+  || (COMPLETED_ONCE(G.completed, G.attempts, 2) && MAT_THROW_REL(G.channel, G.tag, G.payload) && !G.propagated))
 #define UNTOUCHED (!G.dead || (MRCV.receiver_ == G.snap_m && DRCV.receiver_ == G.snap_d))
 
 /* ---------------- event stubs ---------------- */
@@ -115,7 +119,10 @@ static _Bool EV_invoke_cpo(int* rcv, int cpo, int pay) {
 #define MAT_REQ (self == &MRCV && G.self_rcv == &MRCV.receiver_ && CALL_FRESH && SIGNALLABLE(G.completed, G.dead))
 #define DEMAT_REQ (self == &DRCV && G.self_rcv == &DRCV.receiver_ && CALL_FRESH && SIGNALLABLE(G.completed, G.dead))
 #define A_ALL G, MRCV, DRCV
-#define DELIVERED G.channel, G.tag, G.payload
+/* the relations applied to the signal actually delivered downstream */
+#define MAT_REL_D(ich, ipay) MAT_REL(ich, ipay, G.channel, G.tag, G.payload)
+#define MAT_THROW_REL_D MAT_THROW_REL(G.channel, G.tag, G.payload)
+#define DEMAT_REL_D(ich, itag, ipay) DEMAT_REL(ich, itag, ipay, G.channel, G.tag, G.payload)
 
 /* ======================================================= materialize ======================================================= */
 /* value(v...) -> VALUE(set_value, v...).  Conditional noexcept and no try block: if the downstream set_value throws, the exception goes
@@ -125,9 +132,9 @@ static _Bool EV_invoke_cpo(int* rcv, int cpo, int pay) {
 void mat_rcv_set_value(struct mat_rcv* self, int P_VALUES)
 __CPROVER_requires(MAT_REQ)
 __CPROVER_assigns(A_ALL)
-__CPROVER_ensures(!G.threw ==> (COMPLETED_ONCE(G.completed, G.attempts, 1) && MAT_REL(CH_VALUE, P_VALUES, DELIVERED) && !G.propagated))   /* C05: value -> value(tag set_value, same values); C01: exactly one */
-__CPROVER_ensures(G.threw ==> (THREW_BACK(G.completed, G.attempts, G.propagated, G.dead) && G.thrown_tag == TAG_set_value))              /* C01: the throw is not swallowed and nothing else is signalled */
-__CPROVER_ensures(G.channel != CH_ERROR && G.channel != CH_DONE)                                                                         /* C05: never its own error / done channel here */
+__CPROVER_ensures(!G.threw ==> (COMPLETED_ONCE(G.completed, G.attempts, 1) && MAT_REL_D(CH_VALUE, P_VALUES) && !G.propagated))   /* C05: value -> value(tag set_value, same values); C01: exactly one */
+__CPROVER_ensures(G.threw ==> (G.thrown_tag == TAG_set_value && THROW_NOT_LOST))                                                        /* C01: the throw is not swallowed and nothing else is signalled */
+__CPROVER_ensures((G.channel == CH_ERROR ==> G.threw) && G.channel != CH_DONE)                                                         /* C05: own error channel ONLY for an escaped exception; never done */
 __CPROVER_ensures(UNTOUCHED)
 /*@BODY mat_sv*/
 #undef VF_FN_NOEXCEPT
@@ -139,8 +146,8 @@ __CPROVER_ensures(UNTOUCHED)
 void mat_rcv_set_error(struct mat_rcv* self, int P_ERROR)
 __CPROVER_requires(MAT_REQ)
 __CPROVER_assigns(A_ALL)
-__CPROVER_ensures(!G.threw ==> (COMPLETED_ONCE(G.completed, G.attempts, 1) && MAT_REL(CH_ERROR, P_ERROR, DELIVERED)))                      /* C05: error -> VALUE(tag set_error, same error) */
-__CPROVER_ensures(G.threw ==> (COMPLETED_ONCE(G.completed, G.attempts, 2) && MAT_THROW_REL(DELIVERED) && G.thrown_tag == TAG_set_error)) /* C01/C05: a throwing set_value is followed by exactly one set_error(current_exception) */
+__CPROVER_ensures(!G.threw ==> (COMPLETED_ONCE(G.completed, G.attempts, 1) && MAT_REL_D(CH_ERROR, P_ERROR)))                      /* C05: error -> VALUE(tag set_error, same error) */
+__CPROVER_ensures(G.threw ==> (COMPLETED_ONCE(G.completed, G.attempts, 2) && MAT_THROW_REL_D && G.thrown_tag == TAG_set_error)) /* C01/C05: a throwing set_value is followed by exactly one set_error(current_exception) */
 __CPROVER_ensures(G.channel == CH_ERROR ==> G.threw)                                                                                     /* C05: own error channel ONLY for an escaped exception */
 __CPROVER_ensures(!G.propagated && G.dead && UNTOUCHED)                                                                                  /* noexcept; `this` untouched after the completion */
 /*@BODY mat_se*/
@@ -152,8 +159,8 @@ __CPROVER_ensures(!G.propagated && G.dead && UNTOUCHED)                         
 void mat_rcv_set_done(struct mat_rcv* self)
 __CPROVER_requires(MAT_REQ)
 __CPROVER_assigns(A_ALL)
-__CPROVER_ensures(!G.threw ==> (COMPLETED_ONCE(G.completed, G.attempts, 1) && MAT_REL(CH_DONE, ARG_NONE, DELIVERED)))                       /* C05: done -> VALUE(tag set_done) */
-__CPROVER_ensures(G.threw ==> (COMPLETED_ONCE(G.completed, G.attempts, 2) && MAT_THROW_REL(DELIVERED) && G.thrown_tag == TAG_set_done))
+__CPROVER_ensures(!G.threw ==> (COMPLETED_ONCE(G.completed, G.attempts, 1) && MAT_REL_D(CH_DONE, ARG_NONE)))                       /* C05: done -> VALUE(tag set_done) */
+__CPROVER_ensures(G.threw ==> (COMPLETED_ONCE(G.completed, G.attempts, 2) && MAT_THROW_REL_D && G.thrown_tag == TAG_set_done))
 __CPROVER_ensures(G.channel == CH_ERROR ==> G.threw)
 __CPROVER_ensures(!G.propagated && G.dead && UNTOUCHED)
 /*@BODY mat_sd*/
@@ -169,8 +176,8 @@ __CPROVER_ensures(!G.propagated && G.dead && UNTOUCHED)
 void demat_rcv_set_value(struct demat_rcv* self, int P_CPO, int P_VALUES)
 __CPROVER_requires(DEMAT_REQ && IS_CPO_TAG(P_CPO) && IS_SIGNAL(CH_OF_TAG(P_CPO), TAG_NONE, P_VALUES))
 __CPROVER_assigns(A_ALL)
-__CPROVER_ensures(!G.threw ==> (COMPLETED_ONCE(G.completed, G.attempts, 1) && DEMAT_REL(CH_VALUE, P_CPO, P_VALUES, DELIVERED) && !G.propagated))  /* C05: value(tag X, args) -> channel X, same args */
-__CPROVER_ensures(G.threw ==> (THREW_BACK(G.completed, G.attempts, G.propagated, G.dead) && P_CPO == TAG_set_value && G.thrown_tag == TAG_NONE))
+__CPROVER_ensures(!G.threw ==> (COMPLETED_ONCE(G.completed, G.attempts, 1) && DEMAT_REL_D(CH_VALUE, P_CPO, P_VALUES) && !G.propagated))  /* C05: value(tag X, args) -> channel X, same args */
+__CPROVER_ensures(G.threw ==> (P_CPO == TAG_set_value && G.thrown_tag == TAG_NONE && THROW_NOT_LOST))                                   /* C01: only set_value can throw; the throw is not swallowed */
 __CPROVER_ensures(UNTOUCHED)
 /*@BODY dm_sv*/
 #undef VF_FN_NOEXCEPT
@@ -182,7 +189,7 @@ __CPROVER_ensures(UNTOUCHED)
 void demat_rcv_set_error(struct demat_rcv* self, int P_ERROR)
 __CPROVER_requires(DEMAT_REQ)
 __CPROVER_assigns(A_ALL)
-__CPROVER_ensures(COMPLETED_ONCE(G.completed, G.attempts, 1) && DEMAT_REL(CH_ERROR, TAG_NONE, P_ERROR, DELIVERED))                        /* C05: a real error passes through unchanged */
+__CPROVER_ensures(COMPLETED_ONCE(G.completed, G.attempts, 1) && DEMAT_REL_D(CH_ERROR, TAG_NONE, P_ERROR))                        /* C05: a real error passes through unchanged */
 __CPROVER_ensures(!G.threw && !G.propagated && G.dead && UNTOUCHED)
 /*@BODY dm_se*/
 #undef VF_FN_NOEXCEPT
@@ -192,7 +199,7 @@ __CPROVER_ensures(!G.threw && !G.propagated && G.dead && UNTOUCHED)
 void demat_rcv_set_done(struct demat_rcv* self)
 __CPROVER_requires(DEMAT_REQ)
 __CPROVER_assigns(A_ALL)
-__CPROVER_ensures(COMPLETED_ONCE(G.completed, G.attempts, 1) && DEMAT_REL(CH_DONE, TAG_NONE, ARG_NONE, DELIVERED))                         /* C05: done passes through unchanged */
+__CPROVER_ensures(COMPLETED_ONCE(G.completed, G.attempts, 1) && DEMAT_REL_D(CH_DONE, TAG_NONE, ARG_NONE))                         /* C05: done passes through unchanged */
 __CPROVER_ensures(!G.threw && !G.propagated && G.dead && UNTOUCHED)
 /*@BODY dm_sd*/
 #undef VF_FN_NOEXCEPT
